@@ -8,7 +8,7 @@ cd $wt
 PYTHONPATH=$wt timeout 300 /venv/bin/python $d/demo.py >/tmp/vwt_$$.u.log 2>&1; u=$?
 if ! git -C $wt apply $d/patch.diff; then echo "APPLY-FAILED"; git -C /repo worktree remove --force $wt; exit 2; fi
 PYTHONPATH=$wt timeout 300 /venv/bin/python $d/demo.py >/tmp/vwt_$$.c.log 2>&1; c=$?
-t=$(PYTHONPATH=$wt /venv/bin/python -m pytest -q -p no:cacheprovider -n ${NJ:-8} --dist loadscope pint/testsuite 2>&1 | tail -1)
+t=$(PYTHONPATH=$wt /venv/bin/python -m pytest -q -p no:cacheprovider -n ${NJ:-8} --dist loadscope pint/testsuite 2>&1 | tail -3 | tr "\n" " ")
 cd /
 git -C /repo worktree remove --force $wt
 echo "demo_unchanged=$u demo_changed=$c tests: $t"
